@@ -638,6 +638,7 @@ def finish(prop, tier, seed, results, meta, wall, extra_coverage=None, extra_err
     bounds = {}
     samples = []
     witnesses = []
+    coverless = []          # jobs that reached none of their harness's cover labels (every path ended before the first one)
     cuts = collections.Counter()
     paths = collections.Counter()
     per_harness = collections.defaultdict(lambda: collections.Counter())
@@ -659,6 +660,9 @@ def finish(prop, tier, seed, results, meta, wall, extra_coverage=None, extra_err
             per_harness[hname]["paths_" + k] += v
         for k, v in r["covers"].items():
             covers["%s:%s" % (hname, k)] += v
+        want_labels = (meta.get("expected_covers") or {}).get(hname) or []
+        if want_labels and not any(r["covers"].get(lab) for lab in want_labels):
+            coverless.append({"harness": hname, "params": r["params"]})
         functions.update(r["functions"])
         on_demand.update(r.get("on_demand", []))
         patterns.update(r["patterns"])
@@ -728,6 +732,7 @@ def finish(prop, tier, seed, results, meta, wall, extra_coverage=None, extra_err
         "bounds": bounds,
         "cuts_outside_claim": dict(cuts),
         "cover_labels_reached": dict(covers),
+        "jobs_reaching_no_cover_label": coverless[:40],
         "paths_validated_natively": int(tot["validated"]),
         "cross_checked": {"obligation_batches": len(cross), "answers": dict(collections.Counter("%s/%s/%s" % (c.get("ours"), c.get("z3-4.8.12"), c.get("cvc5-1.0")) for c in cross)),
                           "note": "ours / z3 4.8.12 binary / cvc5 1.0 binary on the SMT-LIB2 export; thorough tier only"},
